@@ -27,6 +27,10 @@ type PathPlan struct {
 	Paths  [][]string `json:"paths"` // multi-file: path components per file
 	// Tar: entry names of the archive posted to /move-torrent ("" = no move in this run)
 	Tar    []string `json:"tar,omitempty"`
+	// MoveDupPad > 0: the moved torrent's record claims this resume-data version and its info
+	// has two files marked as padding (BEP 47 attr) that share one path. Versions 1 and 2 do not
+	// honour the attribute: the two are ordinary files resolving to one path.
+	MoveDupPad int `json:"move_dup_pad,omitempty"`
 	Magnet bool     `json:"magnet,omitempty"`
 }
 
@@ -152,12 +156,20 @@ func RunPaths(env *Env, qplan *PathPlan) {
 		// a hostile peer session "moves" a torrent to us: id, metadata (a valid resume record),
 		// data (tar)
 		base := gen.Build(gen.Layout{Name: "moved", PieceLen: 16384, Single: true, Files: []gen.FileSpec{{Path: []string{"moved"}, Length: 5000}}, DataSeed: 5})
+		version := 3
+		if qplan.MoveDupPad > 0 {
+			version = qplan.MoveDupPad
+			base = gen.Build(gen.Layout{Name: "moved", PieceLen: 16384, DataSeed: 6, Files: []gen.FileSpec{
+				{Path: []string{"f1.bin"}, Length: 20000}, {Path: []string{".pad", "100"}, Length: 100, Pad: true},
+				{Path: []string{"f2.bin"}, Length: 5000}, {Path: []string{".pad", "100"}, Length: 100, Pad: true},
+				{Path: []string{"f3.bin"}, Length: 3000}}})
+		}
 		var body bytes.Buffer
 		mw := multipart.NewWriter(&body)
 		w1, _ := mw.CreateFormField("id")
 		w1.Write([]byte("mv"))
 		w2, _ := mw.CreateFormField("metadata")
-		fmt.Fprintf(w2, `{"InfoHash":%q,"Port":0,"Name":"moved","Trackers":null,"URLList":null,"FixedPeers":null,"Info":%q,"Bitfield":null,"AddedAt":"2020-01-01T00:00:00Z","BytesDownloaded":0,"BytesUploaded":0,"BytesWasted":0,"SeededFor":0,"Started":false,"StopAfterDownload":false,"StopAfterMetadata":false,"CompleteCmdRun":false,"Sequential":false}`, b64(base.InfoHash[:]), b64(base.InfoBytes))
+		fmt.Fprintf(w2, `{"InfoHash":%q,"Port":0,"Name":"moved","Trackers":null,"URLList":null,"FixedPeers":null,"Info":%q,"Bitfield":null,"AddedAt":"2020-01-01T00:00:00Z","BytesDownloaded":0,"BytesUploaded":0,"BytesWasted":0,"SeededFor":0,"Started":false,"StopAfterDownload":false,"StopAfterMetadata":false,"CompleteCmdRun":false,"Sequential":false,"Version":%d}`, b64(base.InfoHash[:]), b64(base.InfoBytes), version)
 		w3, _ := mw.CreateFormFile("data", "data")
 		tw := tar.NewWriter(w3)
 		for _, n := range plan.Tar {
@@ -183,6 +195,14 @@ func RunPaths(env *Env, qplan *PathPlan) {
 		simrt.Count("probe.paths.move_posted", 1)
 		time.Sleep(time.Second)
 		judge("mv", "tar")
+		if qplan.MoveDupPad == 1 || qplan.MoveDupPad == 2 {
+			var mv *torrent.Torrent
+			sut.In(func() { mv = sut.Sess.GetTorrent("mv") })
+			if mv != nil {
+				simrt.Violate("C07", "collision.moved", "a moved torrent whose record (version %d) has two non-padding files at the path .pad/100 was accepted", qplan.MoveDupPad)
+			}
+			simrt.Count("probe.paths.move_dup_pad", 1)
+		}
 	}
 	env.NonTriv = true
 	simrt.FreezeTrace()
@@ -243,6 +263,10 @@ func init() {
 			for i := 0; i < r.Range(1, 3); i++ {
 				pp.Tar = append(pp.Tar, q(simrt.Pick(r, []string{"moved", "../escape", "/abs/escape", "a/../../escape2", "..", "./ok", "sub/ok", "../mv2/x", "..\\w", "a/./b", "../../etc/passwd", strings.Repeat("d/", 40) + "deep"})))
 			}
+		}
+		if len(pp.Tar) > 0 && r.Chance(0.3) {
+			pp.MoveDupPad = r.Range(1, 3)
+			pp.Tar = []string{q("f1.bin")}
 		}
 		p.Paths = pp
 	}, Run: func(env *Env, p *Plan) { RunPaths(env, p.Paths) }})
